@@ -16,9 +16,35 @@ package redis
 
 import (
 	"errors"
+
+	"github.com/cybergarage/go-redis/redis/auth"
 )
 
+// applyRequirePass keeps the authenticator for requirepass in step with the
+// configuration, which may change while the server is running (CONFIG SET
+// requirepass, SetRequirePass): the password which makes a new connection
+// start unauthorized is the one that AUTH has to check.
+func (server *Server) applyRequirePass() {
+	server.requirePassMutex.Lock()
+	defer server.requirePassMutex.Unlock()
+	password, requirePass := server.ConfigRequirePass()
+	// The authenticator registered for a previous requirepass must not outlive it:
+	// every authenticator has to accept, so it would refuse the new password too.
+	if server.requirePassAuthenticator != nil && (!requirePass || !server.HasClearTextPasswordAuthenticator("", password)) {
+		server.RemoveAuthenticator(server.requirePassAuthenticator)
+		server.requirePassAuthenticator = nil
+	}
+	if requirePass {
+		if !server.HasClearTextPasswordAuthenticator("", password) {
+			authenticator := auth.NewClearTextPasswordAuthenticatorWith("", password)
+			server.AddAuthenticator(authenticator)
+			server.requirePassAuthenticator = authenticator
+		}
+	}
+}
+
 func (server *Server) Auth(conn *Conn, username string, password string) (*Message, error) {
+	server.applyRequirePass()
 	conn.SetUserName(username)
 	conn.SetPassword(password)
 	ok, err := server.Authenticate(conn)
